@@ -1376,6 +1376,25 @@ func (k *c10k) invariants() []*c10Invariant {
 						switch x := val.(type) {
 						case *ssa.MakeSlice:
 							good = dimOK(x.Len)
+						case *ssa.Slice:
+							// make with a constant length: a fresh array sliced whole
+							if al, ok := x.X.(*ssa.Alloc); ok && x.Low == nil && x.Max == nil {
+								if at, ok := al.Type().Underlying().(*types.Pointer).Elem().Underlying().(*types.Array); ok {
+									n := at.Len()
+									if x.High != nil {
+										if h, isC := ssau.ConstInt(x.High); isC {
+											n = h
+										} else {
+											n = -1
+										}
+									}
+									for _, st := range k.fieldStores[eidx+".Dimension"] {
+										if sv, ok := ssau.ConstInt(st.Val); ok && sv == n {
+											good = true
+										}
+									}
+								}
+							}
 						case *ssa.Call:
 							if g := x.Common().StaticCallee(); g != nil && g.Blocks != nil && k.c.P.IsRepoFunc(g) {
 								good = true
